@@ -162,11 +162,19 @@ impl<'a> Parser<'a> {
     }
 
     fn integer(&mut self) -> Option<usize> {
-        let mut cur = 0;
+        let mut cur: usize = 0;
         let mut found = false;
         while let Some(&(_, ch)) = self.it.peek() {
             if let Some(digit) = ch.to_digit(10) {
-                cur = cur * 10 + digit as usize;
+                // stop before a width that does not fit in usize: the digit left behind
+                // makes the enclosing piece surface as `{ERROR: expected '}'}`
+                cur = match cur
+                    .checked_mul(10)
+                    .and_then(|cur| cur.checked_add(digit as usize))
+                {
+                    Some(cur) => cur,
+                    None => break,
+                };
                 found = true;
                 self.it.next();
             } else {
